@@ -28,6 +28,7 @@ RULE = (
     "distinct = shape signature x number of fault points."
     " 12% of the IRs hold a second module the rewrite is not about (twin with the same names, or unrelated): every facet of it (bytes, blocks, symbols, proxies, expressions, every aux table except the library's leafFunctions bookkeeping, its edges in ir.cfg) must be unchanged and it must still be closed, after apply() and after every injected fault."
     " Patches may carry real alignment directives; 40% of the modules have alignment entries on input blocks; zero-sized input blocks as in C01; in 40% every unknown return target is one shared proxy; 30% of the ELF modules designate DT_INIT/DT_FINI blocks, which must name the code where the block's first label is afterwards; 60% of the data lines of data patches are written as typed directives (.ascii: an encodings entry); 30% of the modules have types/encodings entries on input data blocks."
+    " 6% of the modules are big-endian MIPS32 ELF."
 )
 ASSUMPTIONS = [
     "faults are injected only at patch callbacks (as the property says)",
@@ -42,7 +43,8 @@ MAXK = 8
 
 def gen_case(rng, tier, index):
     case = gen_rewrite.generate(rng, tier, align_lines=True,
-                                 shared_blocks=index % 3 == 0)
+                                 shared_blocks=index % 3 == 0,
+                                 mips_p=0.06)
     if rng.random() < 0.4:
         # alignment entries on input blocks (requirements that hold)
         case["align_seed"] = rng.randrange(1 << 30)
